@@ -27,10 +27,27 @@ ASSUMPTIONS = ['container layout taken from the parser\'s own format description
                'at most one processes block and one images block per dump; exactly one string-index block when logs exist']
 
 
+class AnyOf:
+    """a dict-valued section that comes in several blocks: the statement promises 'equal to its payload' - the payload of
+    ONE of its blocks is accepted (never a mixture)"""
+    def __init__(self, opts):
+        self.opts = list(opts)
+
+    def __eq__(self, other):
+        return any(other == o for o in self.opts)
+
+    def __ne__(self, other):
+        return not self.__eq__(other)
+
+    def __repr__(self):
+        return 'one of ' + repr(self.opts)
+
+
 def expected(spec):
     table = spec['table']
     _, seq = files.v3_layout(spec)
     exp = {'kexts': [], 'dyld': None, 'codes': '', 'processes': {}, 'images': {}, 'logs': []}
+    seen = {}
     for kind, val in seq:
         if kind == 'kexts':
             exp['kexts'] += val['Binaries']
@@ -41,10 +58,9 @@ def expected(spec):
                 exp['dyld']['Binaries'] += val['Binaries']
         elif kind == 'codes':
             exp['codes'] += val
-        elif kind == 'processes':
-            exp['processes'] = val
-        elif kind == 'images':
-            exp['images'] = val
+        elif kind in ('processes', 'images'):
+            seen.setdefault(kind, []).append(val)
+            exp[kind] = val if len(seen[kind]) == 1 else AnyOf(seen[kind])
         elif kind == 'logs':
             exp['logs'] += val
     tp, pn = files.expected_tables(spec['tm'])
@@ -72,6 +88,9 @@ def prop_file(ctx, case):
             if c:
                 last = c[-1]
         spec = dict(spec, chunks=chunks)
+    if len(spec['blocks']) % 2 and isinstance(spec.get('cpu'), dict):
+        # every other dump carries its processes / images section twice, with independent payloads
+        spec = dict(spec, processes2=spec['cpu'], images2={str(k) + '2': v for k, v in spec['cpu'].items()} or {'SharedCache': 1})
     blob = files.build_v3(spec)
     tp, pn = {0xdead: 1}, {1: 'stale'}
     parser = KdBufParser(tp, pn)
